@@ -176,7 +176,10 @@ public:
   {
     bufferStart += size;
     if(bufferStart >= bufferEnd)
+    {
       bufferStart = bufferEnd = buffer ? buffer : (byte*)&_capacity;
+      *bufferEnd = 0;
+    }
   }
 
   void removeBack(usize size)
